@@ -458,10 +458,39 @@ TYPED_UNITS = [
                 final(self).qualifiers@ == old(self).qualifiers@.remove(pos_of(old(self).qualifiers@, lower_ascii_seq(Q::KEY@)))"""),
 ]
 
+
+ITER_UNITS = [
+    dict(id='T.Iter', kind='struct', name='Iter', file=F),
+    dict(id='spec.Iter', kind='raw', text="""
+impl<'a> Iter<'a> {
+    /// the pairs still to be yielded
+    #[verifier::prophetic]
+    pub open spec fn rem(&self) -> Seq<&'a (QualifierKey, SmallString)> { vstd::std_specs::iter::IteratorSpec::remaining(&self.0) }
+}
+"""),
+    dict(id='U-qmap.iter', file=F, fn='iter', ctx=_Q, wrap='impl Qualifiers', properties=['C11', 'C03'],
+         contract="""        ensures r.rem().len() == self.qualifiers@.len(),
+            forall|i: int| 0 <= i < self.qualifiers@.len() ==> *(#[trigger] r.rem()[i]) == self.qualifiers@[i]"""),
+    # R2: `impl<'a> IntoIterator for &'a Qualifiers { fn into_iter }` and `impl<'a> Iterator for Iter<'a> { fn next }` hoisted to inherent methods
+    dict(id='U-qmap.into_iter', file=F, fn='into_iter', ctx=r"impl<'a> IntoIterator for &'a Qualifiers", wrap='impl Qualifiers',
+         properties=['C11', 'C03'],
+         sig_rw=[('R2', r'fn into_iter\(self\) -> Self::IntoIter', "fn into_iter(&self) -> Iter<'_>", 1)],
+         contract="""        ensures r.rem().len() == self.qualifiers@.len(),
+            forall|i: int| 0 <= i < self.qualifiers@.len() ==> *(#[trigger] r.rem()[i]) == self.qualifiers@[i]"""),
+    dict(id='U-qmap.Iter.next', file=F, fn='next', ctx=r"impl<'a> Iterator for Iter<'a>", wrap="impl<'a> Iter<'a>",
+         properties=['C11', 'C03'],
+         sig_rw=[('R2', r'fn next\(&mut self\) -> Option<Self::Item>', "fn next(&mut self) -> Option<(&'a QualifierKey, &'a str)>", 1)],
+         contract="""        ensures
+            old(self).rem().len() == 0 ==> r is None,
+            old(self).rem().len() > 0 ==> r is Some
+                && r->Some_0.0.0@ == old(self).rem()[0].0.0@ && r->Some_0.1@ == old(self).rem()[0].1@
+                && final(self).rem() == old(self).rem().skip(1),"""),
+]
+
 GROUP = dict(
     name='qual',
     theory=['base.rs'],
-    uses='use core::cmp::Ordering;\nuse core::marker::PhantomData;\nuse core::mem;',
+    uses='use core::cmp::Ordering;\nuse core::marker::PhantomData;\nuse core::mem;\nuse core::slice;',
     canary='    axiom_string_from(); broadcast use axiom_ascii_to_lower; broadcast use axiom_view_of_str; axiom_from_keeps_text::<&str>();',
-    units=[_c.PURL_FIELD, _c.PARSE_ERROR, _c.QUALIFIER_KEY, _c.QUALIFIERS] + KEY_UNITS + CMP_UNITS + MAP_UNITS + MAP_UNITS2 + MAP_UNITS3 + MAP_UNITS4 + TYPED_UNITS,
+    units=[_c.PURL_FIELD, _c.PARSE_ERROR, _c.QUALIFIER_KEY, _c.QUALIFIERS] + KEY_UNITS + CMP_UNITS + MAP_UNITS + MAP_UNITS2 + MAP_UNITS3 + MAP_UNITS4 + TYPED_UNITS + ITER_UNITS,
 )
